@@ -2,7 +2,7 @@
 import json
 import drv_usm
 
-PINS = dict(PinAuthFlagTrusted=False, PinConfirmedOnlyGet=False, PinReserialise=False, PinLazyErrorFirst=False, Attack=False)
+PINS = dict(PinAuthFlagTrusted=False, PinConfirmedOnlyGet=False, PinReserialise=False, PinLazyErrorFirst=False, PinStatsInResponse=False, Attack=False)
 INV_C10 = ["RequestAccepted", "FlagsExact", "SecParamsFromDiscovery", "AuthenticAccepted"]
 INV_C11 = ["NeverPlain", "RequestAccepted", "AuthenticAccepted"]
 INV_C09 = ["NoForgery", "ReportIsError", "AuthenticAccepted"]
